@@ -3,8 +3,9 @@
 //   (a) EVERY byte prefix (interrupted write), also completed by a garbage character,
 //   (b) every value token x replacement menu {-1,0,1,2,7,1000000000,2147483648,NA,x,1e400,-0.0,1.5,<deleted>,<10 kB token>},
 //   (c) every line deleted / duplicated / swapped with the next one, one extra value appended to every value line,
-//   (d) (thorough) every pair of integer header tokens x {-1,0,2,1000000000,NA}^2,
-// plus CSV files and grid exchange files (prefixes, token and line faults).
+//   (d) (thorough) every pair of the first 8 integer header tokens x {-1,0,2,1000000000,NA}^2,
+// plus CSV files (Db and Polygons drivers, WKT), LAS well files, legacy keyword files and every grid exchange format that has a
+// reader (Zycor, IfpEn, F2G as text; BMP as binary: every prefix, every header field x integer menu, every header byte x {00,ff}).
 // Each faulty file is loaded in a forked child under AddressSanitizer. Allowed outcomes: the loader reports failure, or it
 // returns an object whose structural invariants hold and which can be inspected (all getters, toString) and saved again.
 // Violations: signal, uncaught exception, ASan report, resource exhaustion (> 2 s CPU (hard limit 3 s) / one allocation > 256 MB /
@@ -18,6 +19,8 @@
 #include "OutputFormat/GridF2G.hpp"
 #include "OutputFormat/GridIfpEn.hpp"
 #include "OutputFormat/GridZycor.hpp"
+#include "OutputFormat/FileLAS.hpp"
+#include "Core/Ascii.hpp"
 
 #include <sys/resource.h>
 #include <sys/time.h>
@@ -128,7 +131,7 @@ static const std::vector<std::pair<std::string, std::string>>& repl_menu()
 }
 static const std::vector<std::string>& pair_menu() { static const std::vector<std::string> v = {"-1", "0", "2", "1000000000", "NA"}; return v; }
 
-struct Mut { std::string kind, title, content, desc; };
+struct Mut { std::string kind, title, content, desc, keysuffix; };
 
 // number of mutations of each family for a parsed text
 struct Plan
@@ -143,7 +146,7 @@ struct Plan
     nGarbage = th ? p.text.size() : 0;
     nTok = p.toks.size() * repl_menu().size();
     nLine = p.lines.size() * 4;
-    for (size_t i = 0; i < p.toks.size() && intToks.size() < 10; i++) if (p.toks[i].isInt && p.toks[i].title != "class_tag") intToks.push_back((int)i);
+    for (size_t i = 0; i < p.toks.size() && intToks.size() < 8; i++) if (p.toks[i].isInt && p.toks[i].title != "class_tag") intToks.push_back((int)i);
     size_t m = pair_menu().size();
     nPair = th ? intToks.size() * (intToks.size() - (intToks.empty() ? 0 : 1)) / 2 * m * m : 0;
   }
@@ -216,7 +219,17 @@ struct Loader
   std::string name;                                           // class / format
   std::function<int(const std::string& content, int wfd)> run;   // in the child; writes "R fail-clean" or "R ok-object" + stages
 };
-static void say(int fd, const std::string& s) { child_write(fd, s + "\n"); }
+static void say(int fd, const std::string& s)
+{
+  if (s.rfind("R ", 0) == 0)
+  {
+    // the load is over: report the CPU it took (what follows — inspecting the object — is harness work on a possibly large object)
+    struct rusage ru; getrusage(RUSAGE_SELF, &ru);
+    char b[64]; snprintf(b, 64, "L %.3f\n", ru.ru_utime.tv_sec + ru.ru_utime.tv_usec * 1e-6 + ru.ru_stime.tv_sec + ru.ru_stime.tv_usec * 1e-6);
+    child_write(fd, b);
+  }
+  child_write(fd, s + "\n");
+}
 
 static int run_nf(const ClassDef& def, bool viaFile, const std::string& content, int wfd)
 {
@@ -288,12 +301,14 @@ static Outcome judge(const ChildResult& r, double cpu)
   std::istringstream is(r.data);
   std::string l, inv, asan;
   bool done = false, memcap = false;
+  double loadcpu = -1.;
   while (std::getline(is, l))
   {
     if (l.rfind("T ", 0) == 0) { o.stage = l.substr(2); if (o.stage == "done") done = true; }
     else if (l.rfind("R ", 0) == 0) o.result = l.substr(2);
     else if (l.rfind("I ", 0) == 0) inv = l.substr(2);
     else if (l.rfind("M ", 0) == 0) memcap = true;
+    else if (l.rfind("L ", 0) == 0) loadcpu = atof(l.c_str() + 2);
     else if (l.rfind("S ", 0) == 0) o.detail += l.substr(2) + " ";
     else if (l.rfind("E ", 0) == 0) o.exc = l.substr(2);
     // first stack frame located in the library sources = the crash site
@@ -326,6 +341,13 @@ static Outcome judge(const ChildResult& r, double cpu)
     if (l.find("AddressSanitizer failed to allocate") != std::string::npos && asan.empty()) asan = "out-of-memory";
   }
   bool xcpu = r.kind == ChildResult::SIGNALED && (r.code == SIGXCPU || r.code == SIGKILL);
+  bool memory = memcap || (r.kind == ChildResult::EXITED && (r.code == 93 || r.code == 96)) || asan == "out-of-memory" || asan == "allocation-size-too-big" || asan == "requested" || asan == "calloc-overflow";
+  if (!memory && asan.empty() && o.result == "ok-object" && inv.empty() && loadcpu >= 0. && loadcpu <= 2.0 && (r.kind == ChildResult::TIMEOUT || xcpu || cpu > 2.0))
+  {
+    // the loader returned within the CPU budget; the budget was exhausted by the harness inspecting a large (valid) object
+    o.detail = "large-object-inspection-cut ";
+    return o;
+  }
   if (r.kind == ChildResult::TIMEOUT || xcpu || memcap || cpu > 2.0 || (r.kind == ChildResult::EXITED && (r.code == 93 || r.code == 96)) ||
       asan == "out-of-memory" || asan == "allocation-size-too-big" || asan == "requested" || asan == "calloc-overflow")
   { o.signature = "resource-exhaustion"; return o; }
@@ -379,33 +401,42 @@ template<class F> static Outcome run_one(F body)
 
 // enumerate all faults of one text through one loader
 static std::string g_tl = "q";   // tier letter of the current run (see case_tier)
-static void fault_text(Ctx& C, const std::string& cls, const std::string& textId, const std::string& text, bool hasTag,
-                       const std::function<int(const std::string&, int)>& loader, size_t& counter)
+static std::string show_content(const std::string& c, bool binary)
 {
-  Parsed P = parse_text(text, hasTag);
-  Plan plan(P, C.thorough());
-  // baseline: the valid text itself
+  if (!binary) return c.size() > 700 ? c.substr(0, 700) + "..." : c;
+  std::string o = std::to_string(c.size()) + " bytes:";
+  char b[8];
+  for (size_t i = 0; i < c.size() && i < 96; i++) { snprintf(b, 8, " %02x", (unsigned char)c[i]); o += b; }
+  if (c.size() > 96) o += " ...";
+  return o;
+}
+// run the valid content (baseline) and then the nmut faults produced by make(i, Mut&) through one loader
+static void fault_run(Ctx& C, const std::string& cls, const std::string& textId, const std::string& valid, size_t nmut,
+                      const std::function<bool(size_t, Mut&)>& make, const std::function<int(const std::string&, int)>& loader,
+                      size_t& counter, bool binary)
+{
+  // baseline: the valid content itself
   {
     size_t myid = counter++;
     bool mine = C.only_case.empty() ? (int)(myid % (size_t)C.nshards) == C.shard : C.only_case == std::to_string(myid);
-    Outcome o = run_one([&](int wfd) { return loader(text, wfd); });   // every shard needs the verdict
+    Outcome o = run_one([&](int wfd) { return loader(valid, wfd); });   // every shard needs the verdict
     if (!o.signature.empty())
     {
       // the loader already fails on the VALID file: its faults cannot be attributed, one finding for the class
       if (mine) { C.eval(); C.outcome("valid-file-" + o.signature); C.violation(cls + ":valid-file:" + o.signature, "loading the unmodified valid file " + textId + " ends with " + o.signature + " (stage " + o.stage + (o.site.empty() ? "" : ", in " + o.site) + ")", g_tl + std::to_string(myid)); }
-      counter += plan.size();
+      counter += nmut;
       return;
     }
-    if (mine) { C.eval(); C.outcome("valid-file-" + o.result); }
+    if (mine) { C.eval(); C.outcome("valid-file-" + o.result + " [" + textId + "]"); }
   }
-  C.ps().space += plan.size() + 1;
-  for (size_t i = 0; i < plan.size(); i++)
+  C.ps().space += nmut + 1;
+  for (size_t i = 0; i < nmut; i++)
   {
     size_t myid = counter++;
     if (C.only_case.empty()) { if ((int)(myid % (size_t)C.nshards) != C.shard) continue; if ((i & 15) == 0 && C.expired()) return; }
     else if (C.only_case != std::to_string(myid)) continue;
     Mut m;
-    if (!plan.make(i, m)) { C.skip(); continue; }
+    if (!make(i, m)) { C.skip(); continue; }
     C.cur_case = g_tl + std::to_string(myid);
     Outcome o = run_one([&](int wfd) { return loader(m.content, wfd); });
     // A 10 kB column/variable name makes std::regex (name matching inside the library) overflow the stack when the object is
@@ -423,18 +454,79 @@ static void fault_text(Ctx& C, const std::string& cls, const std::string& textId
     else
     {
       C.outcome(m.kind + " -> VIOLATION " + o.signature);
-      std::string fam = m.kind.rfind("token", 0) == 0 ? "value" : m.kind.rfind("truncate", 0) == 0 ? "truncate" : "layout";
       // mechanism = crash site (first library frame of the report) when there is one; else class + signature
       std::string key = !o.site.empty() ? "site:" + o.site + ":" + o.signature : cls + ":" + o.signature;
-      (void)fam;
+      // binary files: + header field and class of the injected value (the same site fails for different reasons). For resource
+      // exhaustion the site is dropped there: whether the CPU limit (no stack) or the memory cap (stack) fires first depends on timing.
+      if (!m.keysuffix.empty() && o.signature == "resource-exhaustion") key = cls + ":" + o.signature;
+      key += m.keysuffix;
       if (!o.exc.empty()) o.stage += ", exception: " + o.exc;
-      std::string shown = m.content.size() > 700 ? m.content.substr(0, 700) + "..." : m.content;
-      C.violation(key, cls + " loader: " + m.desc + " of valid file " + textId + " -> " + o.signature + " (stage " + o.stage + (o.site.empty() ? "" : ", in " + o.site) + "). Faulty content: " + shown, g_tl + std::to_string(myid));
+      C.violation(key, cls + " loader: " + m.desc + " of valid file " + textId + " -> " + o.signature + " (stage " + o.stage + (o.site.empty() ? "" : ", in " + o.site) + "). Faulty content: " + show_content(m.content, binary), g_tl + std::to_string(myid));
     }
     // non trivial: the fault reached the reader proper (not stopped at the tag line) — distinct faulty contents
     if (m.title != "class_tag") C.nontrivial(Hash().s(cls).s(m.content).h);
     if (myid % 4001 == 17) C.sample("{\"id\":" + std::to_string(myid) + ",\"class\":" + jstr(cls) + ",\"fault\":" + jstr(m.desc) + ",\"outcome\":" + jstr(o.signature.empty() ? o.result : o.signature) + "}");
   }
+}
+static void fault_text(Ctx& C, const std::string& cls, const std::string& textId, const std::string& text, bool hasTag,
+                       const std::function<int(const std::string&, int)>& loader, size_t& counter)
+{
+  Parsed P = parse_text(text, hasTag);
+  Plan plan(P, C.thorough());
+  fault_run(C, cls, textId, text, plan.size(), [&](size_t i, Mut& m) { return plan.make(i, m); }, loader, counter, false);
+}
+
+// ---------------------------------------------------------------------------------------------
+// Binary files: every byte prefix; every header FIELD (little-endian integer of 2 or 4 bytes at a known offset) x
+// {0, 1, 255, 256, 257, 65535, 0x7fffffff, 0xffffffff (-1), field+1, field-1}; every header byte replaced by 0x00 and 0xff.
+struct BinField { size_t off; int size; std::string name; };
+struct BinPlan
+{
+  std::string data;
+  std::vector<BinField> fields;
+  size_t headerLen;
+  static const std::vector<long long>& menu() { static const std::vector<long long> v = {0, 1, 255, 256, 257, 65535, 0x7fffffffLL, 0xffffffffLL, -1, 1000001, 1000002}; return v; }   // the last two stand for field+1 / field-1
+  size_t nPrefix() const { return data.size(); }
+  size_t nField() const { return fields.size() * menu().size(); }
+  size_t nByte() const { return headerLen * 2; }
+  size_t size() const { return nPrefix() + nField() + nByte(); }
+  unsigned long long get(const BinField& f) const { unsigned long long v = 0; for (int k = f.size - 1; k >= 0; k--) v = (v << 8) | (unsigned char)data[f.off + k]; return v; }
+  std::string fieldAt(size_t pos) const { for (auto& f : fields) if (pos >= f.off && pos < f.off + (size_t)f.size) return f.name; return pos < headerLen ? "header" : "payload"; }
+  bool make(size_t i, Mut& m) const
+  {
+    if (i < nPrefix()) { m = {"truncate", fieldAt(i), data.substr(0, i), "prefix of " + std::to_string(i) + " bytes (cut in " + fieldAt(i) + ")", i < headerLen ? ":truncated-header" : ":truncated-payload"}; return true; }
+    i -= nPrefix();
+    if (i < nField())
+    {
+      const BinField& f = fields[i / menu().size()];
+      long long r = menu()[i % menu().size()];
+      unsigned long long cur = get(f), mask = f.size == 2 ? 0xffffULL : 0xffffffffULL, v;
+      if (r == 1000001) v = (cur + 1) & mask; else if (r == 1000002) v = (cur - 1) & mask; else v = (unsigned long long)r & mask;
+      if (v == cur) return false;
+      if (r == -1) return false;                                       // -1 is the signed reading of 0xffff / 0xffffffff, already in the menu
+      if (f.size == 2 && r > 0xffff && r < 1000001) return false;      // value does not fit a 2-byte field (its truncation is already in the menu)
+      std::string c = data;
+      for (int k = 0; k < f.size; k++) c[f.off + k] = (char)((v >> (8 * k)) & 0xff);
+      char b[64]; snprintf(b, 64, "%llu -> %llu (0x%llx)", cur, v, v);
+      std::string vc = v == 0 ? "zero" : (v & (f.size == 2 ? 0x8000ULL : 0x80000000ULL)) ? "signbit" : v == 0x7fffffffULL ? "intmax" : v >= 65535 ? "65535" : "small";
+      m = {"field", f.name, c, "header field " + f.name + " (offset " + std::to_string(f.off) + ", " + std::to_string(f.size) + " bytes) " + b, ":" + f.name + "=" + vc};
+      return true;
+    }
+    i -= nField();
+    size_t pos = i / 2; unsigned char nv = (i % 2) ? 0xff : 0x00;
+    if ((unsigned char)data[pos] == nv) return false;
+    std::string c = data; c[pos] = (char)nv;
+    char b[32]; snprintf(b, 32, "0x%02x -> 0x%02x", (unsigned char)data[pos], nv);
+    // replacing the top byte of a field by 0xff sets its sign bit; other byte faults give a positive value
+    bool top = false; for (auto& f : fields) if (pos == f.off + (size_t)f.size - 1) top = true;
+    m = {"byte", fieldAt(pos), c, "header byte " + std::to_string(pos) + " (" + fieldAt(pos) + ") " + b, ":" + fieldAt(pos) + "=" + (nv == 0xff && top ? "signbit" : "byte")};
+    return true;
+  }
+};
+static void fault_binary(Ctx& C, const std::string& cls, const std::string& textId, const BinPlan& plan,
+                         const std::function<int(const std::string&, int)>& loader, size_t& counter)
+{
+  fault_run(C, cls, textId, plan.data, plan.size(), [&](size_t i, Mut& m) { return plan.make(i, m); }, loader, counter, true);
 }
 
 static void fault_class(Ctx& C, const std::string& cname)
@@ -561,6 +653,147 @@ VF_PART(grid_formats)
   if (z.empty()) C.note("Zycor writer produced nothing"); else fault_text(C, "GridZycor", "zycor#2D", z, false, [&](const std::string& c, int wfd) { return run_grid<GridZycor>(c, wfd, "zyc"); }, counter);
   std::string f = write_grid<GridIfpEn>(2, "ifp");
   if (f.empty()) C.note("IfpEn writer produced nothing"); else fault_text(C, "GridIfpEn", "ifpen#2D", f, false, [&](const std::string& c, int wfd) { return run_grid<GridIfpEn>(c, wfd, "ifp"); }, counter);
+}
+
+// ---------------------------------------------------------------------------------------------
+// BMP reader (binary). 24-bit file = what GridBmp::writeInFile produces; 8-bit (4-colour palette) and 32-bit files are hand built
+// (the writer cannot produce them) following the same header layout.
+static void put_le(std::string& s, unsigned long long v, int n) { for (int k = 0; k < n; k++) s += (char)((v >> (8 * k)) & 0xff); }
+static std::string bmp_handmade(int nbits)
+{
+  int w = 3, h = 2, ncol = nbits == 8 ? 4 : 0;
+  int rowbytes = w * nbits / 8, pad = (4 - rowbytes % 4) % 4;
+  std::string s;
+  s += "BM"; put_le(s, 54 + 4 * ncol + (rowbytes + pad) * h, 4); put_le(s, 0, 2); put_le(s, 0, 2); put_le(s, 54 + 4 * ncol, 4);
+  put_le(s, 40, 4); put_le(s, w, 4); put_le(s, h, 4); put_le(s, 1, 2); put_le(s, nbits, 2); put_le(s, 0, 4);
+  put_le(s, (rowbytes + pad) * h, 4); put_le(s, 100, 4); put_le(s, 50, 4); put_le(s, ncol, 4); put_le(s, 0, 4);
+  for (int c = 0; c < ncol; c++) { s += (char)(60 * c); s += (char)(60 * c); s += (char)(60 * c); s += (char)0; }
+  for (int y = 0; y < h; y++)
+  {
+    for (int x = 0; x < w; x++)
+    {
+      if (nbits == 8) s += (char)((x + y) % 4);
+      else for (int k = 0; k < nbits / 8; k++) s += (char)(40 * (x + 2 * y) + k);
+    }
+    for (int k = 0; k < pad; k++) s += (char)0;
+  }
+  return s;
+}
+static BinPlan bmp_plan(const std::string& data)
+{
+  BinPlan P; P.data = data;
+  P.fields = {{0, 2, "bfType"}, {2, 4, "bfSize"}, {6, 2, "bfReserved1"}, {8, 2, "bfReserved2"}, {10, 4, "bfOffBits"}, {14, 4, "biSize"},
+              {18, 4, "biWidth"}, {22, 4, "biHeight"}, {26, 2, "biPlanes"}, {28, 2, "biBitCount"}, {30, 4, "biCompression"}, {34, 4, "biSizeImage"},
+              {38, 4, "biXPelsPerMeter"}, {42, 4, "biYPelsPerMeter"}, {46, 4, "biClrUsed"}, {50, 4, "biClrImportant"}};
+  unsigned long long ncol = data.size() >= 50 ? P.get(P.fields[14]) : 0;
+  P.headerLen = std::min<size_t>(data.size(), 54 + 4 * (size_t)std::min<unsigned long long>(ncol, 256));   // header + palette
+  return P;
+}
+VF_PART(grid_bmp)
+{
+  g_tl = case_tier(C);
+  size_t counter = 0;
+  auto loader = [&](const std::string& c, int wfd) { return run_grid<GridBmp>(c, wfd, "bmp"); };
+  std::string w24 = write_grid<GridBmp>(2, "bmp");
+  if (w24.size() < 54) C.note("BMP writer produced nothing");
+  else { BinPlan P = bmp_plan(w24); fault_binary(C, "GridBmp", "bmp#24bit-written-by-GridBmp", P, loader, counter); }
+  { BinPlan P = bmp_plan(bmp_handmade(8)); fault_binary(C, "GridBmp", "bmp#8bit-palette-handmade", P, loader, counter); }
+  { BinPlan P = bmp_plan(bmp_handmade(32)); fault_binary(C, "GridBmp", "bmp#32bit-handmade", P, loader, counter); }
+}
+
+// F2G reader (text, reader only): hand-built minimal valid file
+VF_PART(grid_f2g)
+{
+  g_tl = case_tier(C);
+  size_t counter = 0;
+  std::string t = "F2G_DIM 2\nF2G_VERSION 1\nF2G_LOCATION 0 0 0\nF2G_ROTATION 0\nF2G_ORIGIN 0 0\nF2G_NB_NODES 2 3\nF2G_LAGS 1 0.5\n"
+                  "F2G_ORDER +Y +X +Z\nF2G_NB_VARIABLES 1\nF2G_VARIABLE_1 z\nF2G_UNDEFINED_1 -999\nF2G_VALUES\n1 2 3 -999 5 6\n";
+  fault_text(C, "GridF2G", "f2g#2D", t, false, [&](const std::string& c, int wfd) { return run_grid<GridF2G>(c, wfd, "f2g"); }, counter);
+  if (C.thorough())
+  {
+    std::string t3 = "F2G_DIM 3\nF2G_VERSION 1\nF2G_LOCATION 1 2 3\nF2G_ROTATION 0\nF2G_ORIGIN 0 0 0\nF2G_NB_NODES 2 1 2\nF2G_LAGS 1 1 2\n"
+                     "F2G_ORDER +Y +X +Z\nF2G_NB_VARIABLES 2\nF2G_VARIABLE_1 a\nF2G_UNDEFINED_1 NA\nF2G_VARIABLE_2 b\nF2G_UNDEFINED_2 NA\nF2G_VALUES\n1 2 3 4 5 6 7 8\n";
+    fault_text(C, "GridF2G", "f2g#3D", t3, false, [&](const std::string& c, int wfd) { return run_grid<GridF2G>(c, wfd, "f2g"); }, counter);
+  }
+}
+
+// LAS well file reader
+static int run_las(const std::string& content, int wfd)
+{
+  say(wfd, "T load");
+  std::string path = scratch_path("c09.las");
+  write_file(path, content);
+  FileLAS f(path.c_str());
+  std::unique_ptr<Db> db(f.readFromFile());
+  unlink(path.c_str());
+  if (!db) { say(wfd, "R fail-clean"); return 0; }
+  db_use(db.get(), wfd);
+  return 0;
+}
+VF_PART(las)
+{
+  g_tl = case_tier(C);
+  size_t counter = 0;
+  std::string t = "~Version Information\n VERS. 2.0 : CWLS\n~Well Information\n STRT.M 1.0 : start\n NULL. -999.25 : null value\n~Curve Information\n"
+                  " DEPT.M : depth\n GR.API : gamma\n~A DEPT GR\n 1.0 10.5\n 2.0 -999.25\n 3.0 7\n";
+  fault_text(C, "FileLAS", "las#2curves", t, false, run_las, counter);
+}
+
+// Polygons from CSV (csv_table_read, second CSV driver) and from a QGIS WKT export
+static int run_polycsv(const std::string& content, int wfd, bool wkt)
+{
+  say(wfd, "T load");
+  std::string path = scratch_path("c09poly.csv");
+  write_file(path, content);
+  CSVformat fmt(true, 0, ',', '.', "NA");
+  std::unique_ptr<Polygons> p(wkt ? Polygons::createFromWKT(path, fmt, false) : Polygons::createFromCSV(path, fmt, false));
+  unlink(path.c_str());
+  if (!p) { say(wfd, "R fail-clean"); return 0; }
+  say(wfd, "R ok-object");
+  say(wfd, "T invariants");
+  for (int k = 0; k < p->getPolyElemNumber(); k++) if (p->getPolyElem(k).getX().size() != p->getPolyElem(k).getY().size()) { say(wfd, "I x-y-size"); return 0; }
+  say(wfd, "T getters");
+  const ClassDef* def = find_class("Polygons");
+  Fp fp; def->getters(p.get(), fp);
+  say(wfd, "T display");
+  std::string d = p->toString(); (void)d;
+  say(wfd, "T resave");
+  std::string t2; say(wfd, to_text(p.get(), t2) ? "S resave-ok" : "S resave-refused");
+  say(wfd, "T done");
+  return 0;
+}
+VF_PART(poly_csv)
+{
+  g_tl = case_tier(C);
+  size_t counter = 0;
+  std::string csv = "x,y\n0,0\n1,0\n0,1\nNA,NA\n2,2\n3,2\n3,3\n2,3\n";
+  fault_text(C, "PolygonsCSV", "polycsv#2rings", csv, false, [&](const std::string& c, int wfd) { return run_polycsv(c, wfd, false); }, counter);
+  std::string wkt = "WKT,id\n\"MULTIPOLYGON (((0 0, 1 0, 0 1, 0 0)),((2 2, 3 2, 3 3, 2 3)))\",1\n\"MULTIPOLYGON (((5 5, 6 5, 5 6)))\",2\n";
+  fault_text(C, "PolygonsWKT", "polywkt#2lines", wkt, false, [&](const std::string& c, int wfd) { return run_polycsv(c, wfd, true); }, counter);
+}
+
+// Legacy keyword files (Core/ascii.cpp): environment, simulation and option files. They return scalars, not objects:
+// the only allowed outcome is a normal return.
+static int run_legacy(const std::string& content, int wfd, int which)
+{
+  say(wfd, "T load");
+  std::string path = scratch_path("c09legacy.txt");
+  write_file(path, content);
+  std::vector<char> fn(path.begin(), path.end()); fn.push_back('\0');
+  if (which == 0) ascii_environ_read(fn.data(), 0);
+  if (which == 1) { int a = 0, b = 0, c = 0; ascii_simu_read(fn.data(), 0, &a, &b, &c); }
+  if (which == 2) { int ans = 0; (void)ascii_option_defined(fn.data(), 0, "NBSIMU", 1, &ans); double r = 0; (void)ascii_option_defined(fn.data(), 0, "RANGE", 2, &r); }
+  unlink(path.c_str());
+  say(wfd, "R fail-clean");   // nothing is returned
+  return 0;
+}
+VF_PART(legacy_ascii)
+{
+  g_tl = case_tier(C);
+  size_t counter = 0;
+  fault_text(C, "AsciiEnviron", "environ#2keys", "Environ\nDB 1\nMODEL 0\n", false, [&](const std::string& c, int wfd) { return run_legacy(c, wfd, 0); }, counter);
+  fault_text(C, "AsciiSimu", "simu#3values", "Simu\n10 # Number of simulations\n100 # Number of Turning Bands\n4321 # Random Seed\n", false, [&](const std::string& c, int wfd) { return run_legacy(c, wfd, 1); }, counter);
+  fault_text(C, "AsciiOption", "option#3keys", "Option\nVERBOSE Y\nNBSIMU 12\nRANGE 2.5\n", false, [&](const std::string& c, int wfd) { return run_legacy(c, wfd, 2); }, counter);
 }
 
 int main(int argc, char** argv)
